@@ -45,7 +45,58 @@ def _one(pat, src, what):
     return ms[0]
 
 
+def _declit(txt, prec):
+    m = re.fullmatch(r"(-?)(\d+)(?:\.(\d+))?", txt)
+    if not m or len(m.group(3) or "") > prec:
+        raise ShapeError("not a decimal literal with at most %d decimals: %r" % (prec, txt))
+    v = int(m.group(2) + (m.group(3) or "").ljust(prec, "0"))
+    return -v if m.group(1) else v
+
+
+def _coeff_block(src, name):
+    body = _one(name + r"\s*=\s*\[\]BigDec\{(.*?)\n\t\}", src, name)
+    entries, rest = [], body
+    for m in re.finditer(r'(OneBigDec\(\)|MustNewBigDecFromStr\("([0-9.]+)"\))(\.Neg\(\))?\s*,', body):
+        v = P36 if m.group(1).startswith("OneBigDec") else _declit(m.group(2), 36)
+        entries.append(-v if m.group(3) else v)
+        rest = rest.replace(m.group(0), "", 1)
+    if rest.strip():
+        raise ShapeError("%s: unrecognised entry text %r" % (name, rest.strip()[:80]))
+    return entries
+
+
+_CONSTS = None
+
+
 def read_consts():
+    global _CONSTS
+    if _CONSTS is None:
+        _CONSTS = _read_consts()
+    return _CONSTS
+
+
+def _read_consts():
+    c = read_twap_consts()
+    exp2 = _strip_comments(_src("osmomath/exp2.go"))
+    decimal = _strip_comments(_src("osmomath/decimal.go"))
+    c["num"] = _coeff_block(exp2, "numeratorCoefficients13Param")
+    c["den"] = _coeff_block(exp2, "denominatorCoefficients13Param")
+    if len(c["num"]) != len(c["den"]) or len(c["num"]) < 2:
+        raise ShapeError("exp2: coefficient lists of different length")
+    b, pw = _one(r'maxSupportedExponent\s*=\s*MustNewBigDecFromStr\("([0-9.]+)"\)\.PowerInteger\((\d+)\)', exp2, "maxSupportedExponent")
+    if _declit(b, 36) % P36:
+        raise ShapeError("maxSupportedExponent base is not an integer")
+    c["max_exp"] = (_declit(b, 36) // P36) ** int(pw)
+    c["log_iter"] = int(_one(r"maxLog2Iterations\s*=\s*(\d+)", decimal, "maxLog2Iterations"))
+    c["two"] = _declit(_one(r'twoBigDec\s+BigDec\s*=\s*MustNewBigDecFromStr\("([0-9.]+)"\)', decimal, "twoBigDec"), 36)
+    _one(r"oneHalfBigDec\s+BigDec\s*=\s*oneBigDec\.Quo\(twoBigDec\)", decimal, "oneHalfBigDec")
+    _one(r"negOneBigDec\s+BigDec\s*=\s*oneBigDec\.Neg\(\)", decimal, "negOneBigDec")
+    if int(_one(r"BigDecPrecision\s*=\s*(\d+)", decimal, "BigDecPrecision")) != 36:
+        raise ShapeError("BigDecPrecision is not 36")
+    return c
+
+
+def read_twap_consts():
     utils = _strip_comments(_src("x/twap/types/utils.go"))
     store = _strip_comments(_src("x/twap/store.go"))
     gconst = _strip_comments(_src("x/gamm/types/constants.go"))
@@ -69,6 +120,14 @@ def translate():
            "(* twap NumRecordsToPrunePerBlock *)\nDefinition prune_limit_default : Z := %d.\n"
            "(* gammtypes.SpotPriceSigFigs = NewDec(b).Power(SigFigsExponent).TruncateInt() *)\n"
            "Definition sig_figs : Z := %d.\n" % (c["max_spot_price"], c["limit"], c["sig_figs"]))
+    zl = lambda xs: "[" + ";\n   ".join(zlit(x) for x in xs) + "]"
+    txt = txt.replace("From Coq Require Import ZArith.", "From Coq Require Import ZArith List.\nImport ListNotations.")
+    txt += ("(* osmomath/exp2.go: numeratorCoefficients13Param / denominatorCoefficients13Param (raw x 10^36, .Neg() applied) *)\n"
+            "Definition exp2_num : list Z :=\n  %s.\nDefinition exp2_den : list Z :=\n  %s.\n"
+            "(* exp2.go maxSupportedExponent = MustNewBigDecFromStr(b).PowerInteger(p), as an integer *)\n"
+            "Definition exp2_max_exponent : Z := %d.\n"
+            "(* decimal.go maxLog2Iterations, twoBigDec *)\nDefinition log2_iterations : nat := %d.\nDefinition two_bd : Z := %d.\n"
+            % (zl(c["num"]), zl(c["den"]), c["max_exp"], c["log_iter"], c["two"]))
     return {"Gen/C10_consts.v": txt}
 
 
@@ -111,7 +170,7 @@ def gen_case(r, tier, geom=False, prune=False, extreme=False, ns=False):
         if k < 4 or len([p for p in sim.pools if p["kind"] == "cl"]) >= len(CL_PAIRS) and k >= 7:
             n = 2
         elif k < 7:
-            n = 3 if r.chance(1, 2) else 2
+            n = 3 if r.chance(1, 2) and not geom else 2
         else:
             n = 0
         if n:
@@ -281,10 +340,18 @@ def gen_case(r, tier, geom=False, prune=False, extreme=False, ns=False):
             q = {"op": "q", "kind": 0, "pool": pool, "base": a, "quote": b, "start": s, "end": e}
             if r.chance(1, 4):
                 q["tonow"] = True
+            if geom and r.chance(3, 4):
+                q["kind"] = 1
+                ops.append(q)
+                ops.append(dict(q, base=q["quote"], quote=q["base"]))      # the other quote direction
+                continue
             ops.append(q)
 
     npools = r.choice([1, 1, 2, 2, 3])
     nblocks = r.range(4, 28 if tier == "quick" else 60)
+    if geom:    # every distinct recorded price costs one LogBase2 evaluation of the model
+        npools = r.choice([1, 1, 2])
+        nblocks = r.range(3, 9 if tier == "quick" else 14)
     new_pool()
     created = 1
     for b in range(nblocks):
@@ -317,7 +384,7 @@ def gen_case(r, tier, geom=False, prune=False, extreme=False, ns=False):
             if r.chance(1, 2):
                 queries(r.range(1, 4))     # between setting the pruning state and the pruning pass
         end_block()
-    queries(40 if tier == "quick" else 80)
+    queries((12 if geom else 40) if tier == "quick" else (30 if geom else 80))
     return {"t0": t0, "prune_limit": prune_limit, "keep_period": keep_period, "geom": geom, "ops": ops}
 
 
@@ -540,6 +607,7 @@ def oracle(case, pr):
     series = {}
     now = case["t0"]
     first_rec = {}
+    pairs_seen = {}
     keepmax = None      # the largest keep time any pruning pass was given so far: the retention window starts there
 
     def viol(what, rec):
@@ -648,12 +716,79 @@ def oracle(case, pr):
                     viol("query %d: arithmetic TWAP %d outside [min %d, max %d] of the prices in force" % (idx, val, lo_p, hi_p),
                          {"fn": "twap.arithmetic.computeTwap", "kind": "min_max"})
             else:
-                geom_oracle(viol, idx, op, segs, q0, val, start, end)
+                geom_oracle(viol, idx, op, segs, q0, val, start, end, pairs_seen, (i, j, start, end, now))
     return v
 
 
-def geom_oracle(viol, idx, op, segs, q0, val, start, end):
-    pass
+import decimal
+_DC = decimal.Context(prec=90)
+_LN2 = _DC.ln(decimal.Decimal(2))
+
+
+def _log2_dec(p18):
+    return _DC.divide(_DC.ln(_DC.divide(decimal.Decimal(p18), decimal.Decimal(P18))), _LN2)
+
+
+def _sigfig_slack(x):
+    """half a unit of the last digit SigFigRound(., 10^8) keeps: 8 decimals for x >= 0.1, 8 significant ones below"""
+    k = 0
+    y = x
+    while y < decimal.Decimal("0.1") and k < 40:
+        y *= 10
+        k += 1
+    return decimal.Decimal(5) / decimal.Decimal(10 ** (9 + k))
+
+
+def geom_oracle(viol, idx, op, segs, q0, val, start, end, pairs_seen, key):
+    """geometric TWAP = 2^(time-weighted mean of log2 of the prices in force, own quote direction), to the stated
+    precision: logarithms and their mean are kept to 18 decimals (2 ulp on the exponent), Exp2 is good to a factor
+    1 +- 1e-18, the result is cut to 18 decimals and rounded by SigFigRound(., 10^8).  Quote = asset 1 is answered as the
+    reciprocal of the asset-0 mean: the recorded asset-1 prices are the pool's own roundings of the reciprocal
+    (8 significant digits for gamm pools), which adds 2e-7 relative."""
+    D = decimal.Decimal
+    tot = sum(sg[2] for sg in segs)
+    own = [sg[0] if q0 else sg[1] for sg in segs]
+    if any(sg[0] <= 0 for sg in segs) or any(p <= 0 for p in own):
+        return
+    L = _DC.divide(sum((_log2_dec(p) * sg[2] for p, sg in zip(own, segs)), D(0)), D(tot))
+    x = _DC.exp(_DC.multiply(L, _LN2))
+    got = D(val) / D(P18)
+    if val == 0 and abs(L) <= D("2e-7"):
+        L0 = _DC.divide(sum((_log2_dec(sg[0]) * sg[2] for sg in segs), D(0)), D(tot))
+        if abs(L0) <= D("2e-18"):
+            viol("query %d: geometric TWAP over [%d, %d] is 0 although the time-weighted mean of log2(price) is 0, i.e. the mean price is 1"
+                 % (idx, start, end), {"fn": "twap.geometric.computeTwap", "kind": "zero_result", "cause": "geometric_accumulator_difference_zero"})
+            return
+    tol = x * D("3e-18") + _sigfig_slack(x) + D("2e-18")
+    eps = D(0) if q0 else D("2e-7")
+    quant = D(0) if q0 else max(D(1) / D(sg[0]) for sg in segs) * 2      # relative 18-decimal quantisation of the asset-0 prices
+    lo, hi = D(min(own)) / D(P18), D(max(own)) / D(P18)
+
+    def check(e):
+        if abs(got - x) > tol + x * e:
+            return "mean", ("query %d: geometric TWAP over [%d, %d] (quote asset %d) is %s, two to the time-weighted mean of log2(price) is %s (allowed +-%s)"
+                            % (idx, start, end, 0 if q0 else 1, got, x, tol + x * e))
+        if not (lo * (1 - e) - tol <= got <= hi * (1 + e) + tol):
+            return "min_max", "query %d: geometric TWAP %s outside [min %s, max %s] of the prices in force" % (idx, got, lo, hi)
+        return None
+
+    bad = check(eps)
+    if bad:
+        if not q0 and check(eps + quant) is None:
+            viol(bad[1] + ": the answer is the reciprocal of the asset-0 mean and the asset-0 price %s has too few significant digits at 18 decimals"
+                 % (D(min(sg[0] for sg in segs)) / D(P18)), {"fn": "twap.geometric.computeTwap", "kind": bad[0], "cause": "asset0_price_quantised"})
+        else:
+            viol(bad[1], {"fn": "twap.geometric.computeTwap", "kind": bad[0]})
+        return
+    # the two quote directions are reciprocal up to their roundings
+    other = pairs_seen.get((key, not q0))
+    pairs_seen[(key, q0)] = (got, x)
+    if other is not None and got > 0 and other[0] > 0:
+        g2, x2 = other
+        slack = (tol / x) + ((x2 * D("3e-18") + _sigfig_slack(x2) + D("2e-18")) / x2)
+        if abs(got * g2 - 1) > slack * D("1.01") + D("1e-30"):
+            viol("query %d: the two quote directions of the geometric TWAP, %s and %s, are not reciprocal (product - 1 = %s, allowed %s)"
+                 % (idx, got, g2, got * g2 - 1, slack), {"fn": "twap.geometric.computeTwap", "kind": "reciprocity"})
 
 
 def case_prunes(case):
@@ -726,29 +861,48 @@ def run_cases(cases, model_ok, out, tag):
             out.nontrivial.add(json.dumps(c, sort_keys=True))
         good.append((c, pr))
     if model_ok:
-        items = []
+        items, chunks = [], []
+        arith = [g for g in good if not g[0].get("geom")]
+        geo = [g for g in good if g[0].get("geom")]
         per_file = 6
-        for fi in range(0, len(good), per_file):
-            chunk = good[fi:fi + per_file]
+        for fi in range(0, len(arith), per_file):
+            chunks.append(arith[fi:fi + per_file])
+        chunks += [[g] for g in geo]             # one file per geometric history: its logarithms dominate the cost
+        for n_, chunk in enumerate(chunks):
             body = ";\n  ".join(coq_case(c, pr)[0] for c, pr in chunk)
+            prices = sorted({p0 for c, pr in chunk if c.get("geom") for p0 in recorded_p0(pr)})
             vtxt = ("From Coq Require Import ZArith List. Import ListNotations.\n"
-                    "From Osmo Require Import Base.Obs C10.Model C10.Corr.\nOpen Scope Z_scope.\n"
+                    "From Osmo Require Import Base.Obs C10.Model C10.LogExp C10.Corr.\nOpen Scope Z_scope.\n"
                     "Definition cases : list case := [\n  %s ].\n"
-                    "Definition M := Eval vm_compute in mismatches case_ok cases.\nPrint M.\n" % body)
-            items.append(("C10_%s_%d" % (tag, fi // per_file), vtxt))
+                    "Definition tab : list (Z * option Z) := Eval vm_compute in build_tab %s.\n"
+                    "Definition M := Eval vm_compute in mismatches (case_ok_tab tab) cases.\nPrint M.\n" % (body, zlist(prices)))
+            items.append(("C10_%s_%d" % (tag, n_), vtxt))
         res = common.coq_eval_many(items)
-        for (name, _), (rc, o), fi in zip(items, res, range(0, len(good), per_file)):
+        for (name, _), (rc, o), chunk in zip(items, res, chunks):
             mm = common.parse_nat_list(o)
             if rc != 0 or mm is None:
                 out.mismatches.append({"what": "model evaluation failed: " + o[-800:], "case": None})
                 continue
-            chunk = good[fi:fi + per_file]
             for idx in mm:
                 c, pr = chunk[idx]
                 out.mismatches.append({"what": "C10 model_obs differs from implementation observations", "case": c})
     else:
         out.model_ran = False
     return good
+
+
+def recorded_p0(pr):
+    """every distinct non-zero asset-0 price stored in a record of this history (the arguments of twapLog)"""
+    ps = set()
+    for st in pr.steps:
+        if st["op"] == "end":
+            for rp in st["recent"]:
+                ps.update(rc[2] for rc in rp)
+    for hp in pr.final_hist:
+        for recs in hp:
+            ps.update(rc[2] for rc in recs)
+    ps.discard(0)
+    return ps
 
 
 # (share of the cases, flavour) - arithmetic-only histories
@@ -769,16 +923,49 @@ def gen_cases(r, tier, n):
     return cases
 
 
+# geometric histories (every stored asset-0 price costs one LogBase2 evaluation in the model): share, flavour
+GEOM_FLAVOURS = [(3, {}), (1, {"extreme": True}), (1, {"prune": True}), (1, {"ns": True})]
+
+
+def gen_geom_cases(r, tier, n):
+    cases = []
+    tot = sum(w for w, _ in GEOM_FLAVOURS)
+    for i in range(n):
+        x = (i * tot) // n
+        for w, fl in GEOM_FLAVOURS:
+            if x < w:
+                break
+            x -= w
+        cases.append(gen_case(r.fork("g%d" % i), tier, geom=True, **fl))
+    return cases
+
+
+def f7_witness():
+    """the witness of Properties/C10.v C10_geom_full_refuted on the real chain: a pool whose spot price is exactly 1
+    (arithmetic TWAP 1.0, geometric TWAP 0.0 in both quote directions)"""
+    t0 = 1_700_000_000 * SEC
+    ops = [{"op": "bal", "denoms": ["aaa", "bbb"], "amts": ["1000000000", "1000000000"], "weights": [1, 1]}]
+    for _ in range(5):
+        ops.append({"op": "end", "dt": 60 * SEC})
+    for kind in (0, 1):
+        for a, b in (("aaa", "bbb"), ("bbb", "aaa")):
+            ops.append({"op": "q", "kind": kind, "pool": 1, "base": a, "quote": b, "start": t0 + 60 * SEC, "end": t0 + 240 * SEC})
+    return {"t0": t0, "prune_limit": 0, "keep_period": 0, "geom": True, "ops": ops}
+
+
 def correspond(tier, seed, model_ok):
     out = Outcome()
     r = Rng(seed)
-    n = 64 if tier == "quick" else 1500
-    cases = gen_cases(r, tier, n)
+    n = 56 if tier == "quick" else 1500
+    ng = 24 if tier == "quick" else 400
+    cases = [f7_witness()] + gen_cases(r, tier, n) + gen_geom_cases(r, tier, ng)
     corpus = common.load_corpus(PROP)
     good = run_cases(corpus + cases, model_ok, out, "q")
     out.rule = ("case = history on a fresh full app (1-3 balancer / concentrated pools, swaps, joins, exits, position creation and withdrawal, "
-                "irregular block times) with TWAP queries; non-trivial = at least two blocks recorded a price change and at least one query over a "
-                "positive interval returned a value; distinct = distinct case JSON")
+                "irregular block times incl. sub-millisecond ones, pools driven into spot-price errors / beyond the maximum price, pruning passes "
+                "with small per-block limits and through the epoch hook) with arithmetic and geometric TWAP queries (+ToNow) on, between, before "
+                "and after record times; non-trivial = at least two blocks recorded a price change and at least one query over a positive "
+                "interval returned a value; distinct = distinct case JSON")
     out.samples = [{"t0": c["t0"], "ops": c["ops"][:8]} for c in cases[:3]]
     kinds, qst = {}, {}
     for c, pr in good:
@@ -786,14 +973,17 @@ def correspond(tier, seed, model_ok):
             kinds[op["op"]] = kinds.get(op["op"], 0) + 1
             if op["op"] == "q":
                 qst[str(st["status"])] = qst.get(str(st["status"]), 0) + 1
-    out.distribution = {"ops": kinds, "query_status": qst, "corpus_cases": len(corpus)}
+    out.distribution = {"ops": kinds, "query_status": qst, "corpus_cases": len(corpus),
+                        "geometric_histories": sum(1 for c, _ in good if c.get("geom")),
+                        "log_base2_evaluations": sum(len(recorded_p0(pr)) for c, pr in good if c.get("geom")),
+                        "histories_with_pruning": sum(1 for c, _ in good if case_prunes(c))}
     return out
 
 
 def search(tier, seed, out):
     o2 = Outcome()
     r = Rng(seed + 7919)
-    cases = gen_cases(r, "thorough", 400)
+    cases = gen_cases(r, "thorough", 300) + gen_geom_cases(r, "quick", 100)
     for m in out.mismatches[:20]:
         if m.get("case"):
             cases.append(m["case"])
@@ -868,10 +1058,35 @@ def selftest(seed=1):
     return 0
 
 
-SCOPE = "partial: pipeline core (arithmetic TWAP) - see coq/theories/C10/STATUS.md"
-EXPLANATION = ""
-TRUSTED = []
-ASSUMPTIONS = []
+SCOPE = ("partial: proved for every history and every interval inside the retention window - arithmetic TWAP = truncated time-weighted mean "
+         "(definitional integral), between min and max, geometric accumulator difference = sum log2(p_i)*dt_i exactly and result = the code's "
+         "rounding of Exp2|mean| or its reciprocal when that difference is non-zero, the two quote directions share one Exp2 value, error flag, "
+         "pruning invisible. Refuted (findings, witnesses in the theorem file): geometric TWAP 0 when the accumulator difference is 0 (F7); "
+         "intervals inside one millisecond panic (C10-SUBMS). Not proved: real-analysis error bound eps of the geometric mean (needs C13's "
+         "LogBase2/Exp2 bounds), absence of range-assertion panics, lifting from one (pool, pair) to the whole module state (covered by the "
+         "correspondence only)")
+EXPLANATION = ("Gallina model of x/twap (C10/Model.v: getSpotPrices, newTwapRecord, updateRecord, recordWithUpdatedAccumulators, "
+               "getInterpolatedRecord, computeTwap with both strategies, pruneRecordsBeforeTimeButNewest with its per-block limit, EndBlock, epoch "
+               "hook, the changed-pool set) plus faithful copies of osmomath LogBase2 / Exp2 / SigFigRound (C10/LogExp.v). Theorems are by induction "
+               "over the chain of records ever stored for a pair, against a definitional sum over millisecond slots of the price step function. "
+               "The model is tied to /repo by running the real keeper on a full app (balancer and concentrated pools) and comparing every stored "
+               "record field, changed-pool set, pruning state and query answer; the pool's raw spot prices are case inputs. An independent oracle "
+               "(exact Fractions; 90-digit decimal log/exp) evaluates the property's predicates on the implementation's observations.")
+TRUSTED = [
+    "hand-written model coq/theories/C10/Model.v + LogExp.v, tied to x/twap and osmomath by the correspondence run (harness/c10drv against /repo's working tree)",
+    "harness/c10drv (Go; clears the twap transient store between blocks the way a commit does), props/c10.py (generator, parser, oracle), Coq vm_compute evaluation of generated case files; logarithms of a history are tabulated once (lg_cached, proved pointwise equal to twap_log)",
+    "modelled not verified: pool modules (their spot prices are inputs), SDK stores and time formatting of keys (years 1..9999), protobuf codecs, math/big",
+]
+ASSUMPTIONS = [
+    "block times strictly increase (CometBFT BFT time) and lie after year 1; pool ids are assigned 1,2,3,... in creation order",
+    "time-weighted means are taken over canonical millisecond time (types.CanonicalTimeMs), as the module documents",
+    "theorems are per (pool, asset pair); the module-level loops (EndBlock over changed pools, pruning over pools and pairs) are covered by the correspondence check",
+]
 TECHNIQUE = "Coq proof over a Gallina model of x/twap; model tied to the keeper by differential correspondence on full-app histories + oracle"
-LEVEL_TEXT = ""
-LEVEL_NOTE = ""
+LEVEL_TEXT = ("Machine-checked theorems (Coq 8.16.1, axiom-free) over all histories of one (pool, pair) and all query intervals inside the retention "
+              "window: arithmetic TWAP equals the truncated definitional time-weighted mean and lies between min and max; geometric accumulator "
+              "structure and result form; reciprocity of the quote directions up to the stated roundings; error flag; pruning invisibility. Two "
+              "clauses of the property are refuted on the faithful model with witnesses replayed on the real chain (known findings F7, C10-SUBMS). "
+              "The model is checked against the real keeper on generated full-app histories on every run.")
+LEVEL_NOTE = ("Trusted: Coq kernel (vm_compute, no native_compute), no axioms; hand-written model C10/Model.v + LogExp.v; Go driver harness/c10drv and "
+              "python glue; pool modules, SDK stores, codecs not modelled. The geometric TWAP's numerical error bound is not proved here.")
